@@ -314,6 +314,7 @@ type histo struct {
 	value        []byte
 	setupSubmits int
 	findings     [][2]string
+	noLiveness   bool // the history changed the duty's inputs midway: only the safety clauses are judged
 }
 
 func (h *histo) logf(f string, a ...any) { h.log = append(h.log, fmt.Sprintf(f, a...)) }
@@ -425,7 +426,20 @@ func runHist(st *state, rng *rand.Rand, c reporter, sample bool, s scen) *histo 
 
 	list := h.buildMessages()
 	order := h.order(list)
-	for _, i := range order {
+	// validator registration: the share's fee recipient can change while the duty runs (the controller's UpdateFeeRecipient
+	// writes it into the share object the runners hold); partial signatures made before the change are then over another
+	// registration. Whatever is submitted must still verify over exactly what is submitted.
+	feeChangeAt := -1
+	if s.ph.name == "validator-registration" && rng.Intn(3) == 0 {
+		feeChangeAt = 1 + rng.Intn(int(cl.KS.Threshold)-1)
+	}
+	for k, i := range order {
+		if k == feeChangeAt {
+			h.op.Share.FeeRecipientAddress = [20]byte{0xf2, 0xf2, 0xf2, 0xf2, 0xf2, 0xf2, 0xf2, 0xf2, 0xf2, 0xf2, 0xf2, 0xf2, 0xf2, 0xf2, 0xf2, 0xf2, 0xf2, 0xf2, 0xf2, 0xf2}
+			h.noLiveness = true
+			h.logf("fee recipient of the share changed (event processed by the node while the duty runs)")
+			c.Count("fee_recipient_changed_mid_duty", 1)
+		}
 		p := list[i]
 		err := cl.Deliver(h.op, p.m, p.label)
 		h.logf("deliver from %d [%s] -> err=%v; submissions so far %d", p.from, p.label, err != nil, len(h.op.Submits)-setupSubmits)
@@ -839,7 +853,7 @@ func (h *histo) judge(list []pmsg, setupSubmits int) {
 	}
 	quorum := len(correct) >= int(h.cl.KS.Threshold)
 	isReq := s.ph.pre && (s.ph.role == spectypes.BNRoleProposer || s.ph.role == spectypes.BNRoleSyncCommitteeContribution)
-	if quorum {
+	if quorum && !h.noLiveness {
 		for i, e := range h.exp {
 			if count[e.ObjRoot] == 0 {
 				viol("submission-lost", fmt.Sprintf("object-%d-of-%d", i+1, len(h.exp)),
